@@ -66,16 +66,18 @@ Fixpoint finalize (v : value) : option fvalue :=
       | Some a, Some b, Some fs' => Some (FObj c fs' (a, b))
       | _, _, _ => None
       end
-  | VFun _ | VErr _ => Some FOther
+  | VLit sl _ => Some (FStr sl)
+  | VFun _ | VErr _ | VRule _ | VClos _ _ => Some FOther
   end.
 End F.
 
-Definition parse_model (g : list expr) (ignored : option nat) (t : list nat)
+Definition parse_model (lf : bool) (g funs : list (list nat * expr)) (named : bool) (ignored : option nat) (t : list nat)
            (rx : nat -> nat -> option nat) (fuel : nat) (entry : nat) (p : nat) (fullparse : bool) : outcome :=
   match nth_error g entry with
   | None => Crash 3
-  | Some b =>
-    match exec false g ignored t rx fuel b (fresh p) with
+  | Some (_ :: _, _) => Crash 4
+  | Some ([], b) =>
+    match exec lf g funs named ignored t rx fuel b (fresh p) with
     | OutOfFuel => Fuel
     | Stuck _ => Crash 2
     | Done s =>
